@@ -166,7 +166,7 @@ class Lib:
         return self.O.read(n)
 
     def op(self, name, a, b=None, arg=0, alias=None):
-        """Run a table operation. alias: None, 'a' (out is a), 'b' (out is b), 'ab' (out, a, b one object).
+        """Run a table operation. alias: None, 'a' (out is a), 'b' (out is b), 'ab' (out, a, b one object), 'b=a' (a and b one object, out another).
         Returns (return value, output image)."""
         o = OPS[name]
         f = self._fn[name]
@@ -189,6 +189,11 @@ class Lib:
         if alias == "ab":
             rv = f(A.ptr, A.ptr, A.ptr, arg)
             return rv, A.read(osz)
+        if alias == "b=a":      # both inputs are one object, the output is another
+            O.arm(osz)
+            rv = f(O.ptr, A.ptr, A.ptr, arg)
+            O.check_guard(name, osz)
+            return rv, O.read(osz)
         raise ValueError(alias)
 
     # convenience for hand-written shim functions: write inputs into scratch blocks, read output
